@@ -57,6 +57,7 @@ func (c05) Gen(tier string, seed int64) []fw.Unit {
 			us = append(us, fw.U("c128.classes", nil, "class-sequences", int64(a), int64(b), depth))
 		}
 	}
+	us = append(us, fw.U("c128.alternate", nil, "alternations", 0))
 	us = append(us, fw.U("c128.digitruns", nil, "digit-runs", 0))
 	us = append(us, fw.U("c128.digitruns", nil, "digit-runs", 1))
 	r := rngFor(seed, "C05")
@@ -90,6 +91,7 @@ func c128Check(c *fw.Ctx, content string, nocs bool) {
 		}
 		return
 	}
+	retainObserve(c, "code128", o.bc, inner, 3)
 	bits, err := row1D(o.bc)
 	if err != nil {
 		c.Violation("c128/image", err.Error(), inner, "")
@@ -200,6 +202,28 @@ func (p c05) Exec(c *fw.Ctx, u *fw.Unit) {
 			c128Check(c, string(ch), nocs)
 			c128Check(c, "a"+string(ch)+"\x02", nocs)
 			c128Check(c, "12"+string(ch)+"34", nocs)
+		}
+	case "c128.alternate":
+		// contents that force a code-set change (or shift) at almost every character: the
+		// longest symbols a content of <= 80 runes can produce
+		r := rngFor(c.Seed, "c128alt")
+		pairs := [][2]int{{2, 3}, {3, 2}, {2, 0}, {0, 2}, {3, 0}, {4, 2}, {5, 3}, {2, 5}, {1, 2}, {3, 1}}
+		for _, pr := range pairs {
+			for n := 30; n <= 81; n++ {
+				rs := make([]rune, n)
+				for i := range rs {
+					rs[i] = c128Rep(r, pr[i%2])
+				}
+				c128Check(c, string(rs), false)
+				if n%3 == 0 {
+					c128Check(c, string(rs), true)
+				}
+				// blocks of two
+				for i := range rs {
+					rs[i] = c128Rep(r, pr[(i/2)%2])
+				}
+				c128Check(c, string(rs), false)
+			}
 		}
 	case "c128.random":
 		r := rngFor(u.Int(0), "c128rnd")
